@@ -819,3 +819,701 @@ Proof.
   unfold two_ramp_b, two_ramp, within. rewrite !andb_true_iff, !Qleb_le, !Z.ltb_lt.
   intros [[[[[H1 H2] H3] H4] H5] H6]. apply Qeq_bool_iff in H3. repeat split; assumption.
 Qed.
+
+(* ========================================================================================== *)
+(* convert_to_arbitrary=True                                                                   *)
+
+Lemma make_ext_trap_arb_OK s times amps g : make_ext_trap_arb s times amps = OK g ->
+  existsb (fun dt => Qleb dt 0) (diffs times) = false /\
+  a_wave g = eta_points_to_waveform (s_raster s) times amps /\
+  a_tt g = map (fun i => (inject_Z (Z.of_nat i) + (1 # 2)) * s_raster s) (seq 0 (length (a_wave g))) /\
+  a_first g = hd 0 amps /\ a_last g = last amps 0 /\
+  a_area g = Qred (qsum (map (fun w => w * s_raster s) (a_wave g))) /\
+  a_shape_dur g = inject_Z (Z.of_nat (length (a_wave g))) * s_raster s /\
+  existsb (fun w => Qltb (s_max_grad s + eta_eps) (Qabs w)) (a_wave g) = false /\
+  existsb (fun dw => Qltb (s_max_slew s * (1 + eta_eps)) (Qabs (dw / s_raster s))) (diffs (a_wave g)) = false.
+Proof.
+  unfold make_ext_trap_arb.
+  destruct (forallb (fun t => Qeq_bool t 0) times); [discriminate|].
+  destruct (existsb (fun dt => Qleb dt 0) (diffs times)) eqn:E1; [discriminate|].
+  destruct (negb (on_raster (s_raster s) (last times 0))); [discriminate|].
+  destruct (Qltb 0 (hd 0 times) && negb (Qeq_bool (hd 0 amps) 0)); [discriminate|].
+  cbv zeta.
+  destruct (existsb _ (diffs (eta_points_to_waveform _ _ _))) eqn:E2; [discriminate|].
+  destruct (existsb _ (eta_points_to_waveform _ _ _)) eqn:E3; [discriminate|].
+  destruct (existsb _ (slews _ _)) eqn:E4; [discriminate|].
+  intro H. inversion H; subst; clear H. cbn [a_wave a_tt a_first a_last a_area a_shape_dur].
+  repeat split; auto.
+Qed.
+
+Lemma finish_arb_OK a d c o : finish_arb a d c = OK o ->
+  exists g, make_ext_trap_arb (e_sys a) (build_times a c) (build_amps a c) = OK g /\
+            o = {| oa_grad := g; oa_dur := d; oa_cand := c |} /\
+            Qabs (a_area g - e_area a) < eta_area_tol.
+Proof.
+  unfold finish_arb. destruct (make_ext_trap_arb _ _ _) as [g|e] eqn:E; [|discriminate].
+  destruct (Qltb _ _) eqn:L; [|discriminate]. intro H. inversion H; subst.
+  exists g. repeat split; auto. apply Qltb_lt. exact L.
+Qed.
+
+Lemma eta_arb_OK fd fb a o : eta_arb fd fb a = OK o ->
+  search fd fb a = OK (oa_dur o, oa_cand o) /\ finish_arb a (oa_dur o) (oa_cand o) = OK o.
+Proof.
+  unfold eta_arb. destruct (search fd fb a) as [[d c]|e] eqn:S; [|discriminate].
+  intro H. pose proof H as H'. apply finish_arb_OK in H. destruct H as [g [_ [-> _]]].
+  cbn [oa_dur oa_cand]. split; [reflexivity|exact H'].
+Qed.
+
+(* first / last of the sampled event are the requested end points *)
+Lemma eta_arb_endpoints_lem fd fb a o : eta_arb fd fb a = OK o ->
+  a_first (oa_grad o) = e_gs a /\ a_last (oa_grad o) = e_ge a.
+Proof.
+  intro H. apply eta_arb_OK in H. destruct H as [_ HF]. apply finish_arb_OK in HF.
+  destruct HF as [g [HM [Ho _]]]. rewrite Ho. cbn [oa_grad].
+  apply make_ext_trap_arb_OK in HM. destruct HM as [_ [_ [_ [F [L _]]]]].
+  rewrite F, L. unfold build_amps. destruct (Qltb 0 (inject_Z (c_flat (oa_cand o)) * rast a)); split; reflexivity.
+Qed.
+
+(* ---- np.interp on three / four knots ---- *)
+Lemma interp_seg1 t0 t1 w0 w1 tr wr x : ~ x <= t0 -> x <= t1 ->
+  eta_interp (t0 :: t1 :: tr) (w0 :: w1 :: wr) x = (w1 - w0) / (t1 - t0) * (x - t0) + w0.
+Proof.
+  intros H0 H1. cbn [eta_interp].
+  destruct (Qle_bool x t0) eqn:E0; [apply Qle_bool_iff in E0; contradiction|].
+  destruct (Qle_bool x t1) eqn:E1; [reflexivity|].
+  exfalso. apply Qle_bool_iff in H1. congruence.
+Qed.
+
+Lemma interp_skip t0 t1 w0 w1 tr wr x : ~ x <= t1 -> t0 <= t1 ->
+  eta_interp (t0 :: t1 :: tr) (w0 :: w1 :: wr) x = eta_interp (t1 :: tr) (w1 :: wr) x.
+Proof.
+  intros H1 H01. cbn [eta_interp].
+  destruct (Qle_bool x t0) eqn:E0; [apply Qle_bool_iff in E0; exfalso; apply H1; lra|].
+  destruct (Qle_bool x t1) eqn:E1; [apply Qle_bool_iff in E1; contradiction|].
+  reflexivity.
+Qed.
+
+(* raster centres against raster multiples *)
+Lemma centre_le i n R : 0 < R -> ((inject_Z i + (1 # 2)) * R <= inject_Z n * R <-> (i < n)%Z).
+Proof.
+  intro HR. split; intro H.
+  - assert (inject_Z i + (1 # 2) <= inject_Z n) by (apply (Qmult_le_r _ _ R HR); exact H).
+    assert (inject_Z i < inject_Z n) by lra. rewrite <- Zlt_Qlt in H1. exact H1.
+  - apply Qmult_le_compat_r; [|lra].
+    assert (i + 1 <= n)%Z by lia. rewrite Zle_Qle, inject_Z_plus in H0. change (inject_Z 1) with 1 in H0. lra.
+Qed.
+
+Lemma centre_pos i R : 0 < R -> (0 <= i)%Z -> ~ (inject_Z i + (1 # 2)) * R <= 0.
+Proof.
+  intros HR Hi H. pose proof (inject_Z_nonneg _ Hi).
+  assert (0 < (inject_Z i + (1 # 2)) * R) by (apply Qmult_lt_0_compat; lra). lra.
+Qed.
+
+Lemma build_times_raster_pos a c : (0 < c_up c)%Z ->
+  existsb (fun dt => Qleb dt 0) (diffs (build_times a c)) = false -> 0 < rast a.
+Proof.
+  intros Hu M1. pose proof (existsb_false_all _ _ M1) as HD.
+  assert (Hin1 : In ((0 + inject_Z (c_up c) * rast a) - 0) (diffs (build_times a c))).
+  { unfold build_times. destruct (Qltb 0 (inject_Z (c_flat c) * rast a)); cbn [diffs]; left; reflexivity. }
+  specialize (HD _ Hin1). cbv beta in HD.
+  assert (Hpos : 0 < 0 + inject_Z (c_up c) * rast a - 0).
+  { apply Qnot_le_lt. intro Hle. apply Qleb_le in Hle. congruence. }
+  apply (pos_prod_pos (inject_Z (c_up c))); [apply inject_Z_pos; lia|lra].
+Qed.
+
+Lemma flat_test a c : 0 < rast a -> (0 <= c_flat c)%Z ->
+  Qltb 0 (inject_Z (c_flat c) * rast a) = (0 <? c_flat c)%Z.
+Proof.
+  intros HR Hf. destruct (0 <? c_flat c)%Z eqn:E.
+  - apply Z.ltb_lt in E. apply Qltb_lt. apply Qmult_lt_0_compat; [apply inject_Z_pos; exact E|exact HR].
+  - apply Z.ltb_ge in E. assert (c_flat c = 0%Z) by lia. rewrite H.
+    destruct (Qltb 0 (inject_Z 0 * rast a)) eqn:L; [|reflexivity].
+    apply Qltb_lt in L. change (inject_Z 0) with 0 in L. lra.
+Qed.
+
+(* value of the corner list at the centre of raster cell i, in closed form *)
+Definition arb_sample_spec (a : etaArgs) (c : cand) (i : Z) : Q :=
+  let R := rast a in
+  let x := (inject_Z i + (1 # 2)) * R in
+  if (i <? c_up c)%Z then (c_amp c - e_gs a) / (inject_Z (c_up c) * R) * x + e_gs a
+  else if (i <? c_up c + c_flat c)%Z then c_amp c
+  else (e_ge a - c_amp c) / (inject_Z (c_down c) * R) * (x - inject_Z (c_up c + c_flat c) * R) + c_amp c.
+
+Lemma interp_build a c i : 0 < rast a -> (0 < c_up c)%Z -> (0 <= c_flat c)%Z -> (0 < c_down c)%Z ->
+  (0 <= i < c_up c + c_flat c + c_down c)%Z ->
+  eta_interp (build_times a c) (build_amps a c) (inject_Z (0 + i) * rast a + rast a / 2)
+  == arb_sample_spec a c i.
+Proof.
+  intros HR Hu Hf Hd Hi. unfold build_times, build_amps, arb_sample_spec. cbv zeta.
+  rewrite (flat_test a c HR Hf).
+  set (R := rast a) in *. set (X := inject_Z (0 + i) * R + R / 2).
+  assert (HX : X == (inject_Z i + (1 # 2)) * R).
+  { unfold X. rewrite Z.add_0_l. field. }
+  pose proof (inject_Z_pos _ Hu) as Pu. pose proof (inject_Z_pos _ Hd) as Pd.
+  pose proof (inject_Z_nonneg _ Hf) as Pf.
+  assert (X0 : ~ X <= 0) by (rewrite HX; apply centre_pos; [exact HR|lia]).
+  assert (TU : 0 < inject_Z (c_up c) * R) by (apply Qmult_lt_0_compat; assumption).
+  assert (TD : 0 < inject_Z (c_down c) * R) by (apply Qmult_lt_0_compat; assumption).
+  assert (TF : 0 <= inject_Z (c_flat c) * R) by (apply Qmult_le_0_compat; lra).
+  destruct (0 <? c_flat c)%Z eqn:EF.
+  - (* four corners *)
+    apply Z.ltb_lt in EF. pose proof (inject_Z_pos _ EF) as Pf'.
+    assert (TF' : 0 < inject_Z (c_flat c) * R) by (apply Qmult_lt_0_compat; assumption).
+    destruct (i <? c_up c)%Z eqn:E1.
+    + apply Z.ltb_lt in E1. rewrite interp_seg1; [rewrite HX; field; lra|exact X0|].
+      rewrite HX. setoid_replace (0 + inject_Z (c_up c) * R) with (inject_Z (c_up c) * R) by ring.
+      apply centre_le; assumption.
+    + apply Z.ltb_ge in E1.
+      assert (N1 : ~ X <= 0 + inject_Z (c_up c) * R).
+      { rewrite HX. setoid_replace (0 + inject_Z (c_up c) * R) with (inject_Z (c_up c) * R) by ring.
+        intro H. apply centre_le in H; [lia|exact HR]. }
+      rewrite interp_skip; [|exact N1|lra].
+      destruct (i <? c_up c + c_flat c)%Z eqn:E2.
+      * apply Z.ltb_lt in E2. rewrite interp_seg1; [field; lra|exact N1|].
+        rewrite HX.
+        setoid_replace (0 + inject_Z (c_up c) * R + inject_Z (c_flat c) * R)
+          with (inject_Z (c_up c + c_flat c) * R) by (rewrite inject_Z_plus; ring).
+        apply centre_le; assumption.
+      * apply Z.ltb_ge in E2.
+        assert (N2 : ~ X <= 0 + inject_Z (c_up c) * R + inject_Z (c_flat c) * R).
+        { rewrite HX.
+          setoid_replace (0 + inject_Z (c_up c) * R + inject_Z (c_flat c) * R)
+            with (inject_Z (c_up c + c_flat c) * R) by (rewrite inject_Z_plus; ring).
+          intro H. apply centre_le in H; [lia|exact HR]. }
+        rewrite interp_skip; [|exact N2|lra].
+        rewrite interp_seg1; [rewrite HX, inject_Z_plus; field; lra|exact N2|].
+        rewrite HX.
+        setoid_replace (0 + inject_Z (c_up c) * R + inject_Z (c_flat c) * R + inject_Z (c_down c) * R)
+          with (inject_Z (c_up c + c_flat c + c_down c) * R) by (rewrite !inject_Z_plus; ring).
+        apply centre_le; [exact HR|lia].
+  - (* three corners: flat = 0 *)
+    apply Z.ltb_ge in EF. assert (F0 : c_flat c = 0%Z) by lia. rewrite F0 in *. rewrite Z.add_0_r in *.
+    destruct (i <? c_up c)%Z eqn:E1.
+    + apply Z.ltb_lt in E1. rewrite interp_seg1; [rewrite HX; field; lra|exact X0|].
+      rewrite HX. setoid_replace (0 + inject_Z (c_up c) * R) with (inject_Z (c_up c) * R) by ring.
+      apply centre_le; assumption.
+    + apply Z.ltb_ge in E1.
+      assert (N1 : ~ X <= 0 + inject_Z (c_up c) * R).
+      { rewrite HX. setoid_replace (0 + inject_Z (c_up c) * R) with (inject_Z (c_up c) * R) by ring.
+        intro H. apply centre_le in H; [lia|exact HR]. }
+      rewrite interp_skip; [|exact N1|lra].
+      rewrite interp_seg1; [rewrite HX; field; lra|exact N1|].
+      rewrite HX.
+      setoid_replace (0 + inject_Z (c_up c) * R + inject_Z (c_down c) * R)
+        with (inject_Z (c_up c + c_down c) * R) by (rewrite !inject_Z_plus; ring).
+      apply centre_le; [exact HR|lia].
+Qed.
+
+Lemma last_build_times a c :
+  last (build_times a c) 0 == inject_Z (c_up c + (if Qltb 0 (inject_Z (c_flat c) * rast a) then c_flat c else 0) + c_down c)
+                              * rast a.
+Proof.
+  unfold build_times. destruct (Qltb 0 (inject_Z (c_flat c) * rast a)); cbn [last];
+    rewrite !inject_Z_plus; change (inject_Z 0) with 0; ring.
+Qed.
+
+Lemma hd_build_times a c : hd 0 (build_times a c) = 0.
+Proof. unfold build_times. destruct (Qltb 0 (inject_Z (c_flat c) * rast a)); reflexivity. Qed.
+
+(* structure of an accepted arbitrary-form result *)
+Lemma eta_arb_samples_lem fd fb a o : eta_arb fd fb a = OK o ->
+  let g := oa_grad o in let c := oa_cand o in let D := oa_dur o in
+  0 < rast a /\ find_solution a D = Some c /\
+  (0 < c_up c /\ 0 <= c_flat c /\ 0 < c_down c /\ c_up c + c_flat c + c_down c = D)%Z /\
+  length (a_wave g) = Z.to_nat D /\ length (a_tt g) = Z.to_nat D /\
+  (forall i, (i < Z.to_nat D)%nat -> nth i (a_wave g) 0 == arb_sample_spec a c (Z.of_nat i)) /\
+  (forall i, (i < Z.to_nat D)%nat -> nth i (a_tt g) 0 == (inject_Z (Z.of_nat i) + (1 # 2)) * rast a) /\
+  a_shape_dur g == inject_Z D * rast a /\
+  a_area g == qsum (map (fun w => w * rast a) (a_wave g)) /\
+  Qabs (a_area g - e_area a) < eta_area_tol.
+Proof.
+  intro H. apply eta_arb_OK in H. destruct H as [HS HF]. cbv zeta.
+  apply search_OK in HS. destruct HS as [Hfind _].
+  pose proof (find_solution_Some _ _ _ Hfind) as [p [_ [Hc [_ [Hu [Hd Hsum]]]]]].
+  apply finish_arb_OK in HF. destruct HF as [g [HM [Ho Har]]].
+  assert (Hg : oa_grad o = g) by (rewrite Ho; reflexivity). rewrite Hg. clear Ho Hg.
+  set (c := oa_cand o) in *. set (D := oa_dur o) in *.
+  assert (Cu : c_up c = fst p) by (rewrite Hc; reflexivity).
+  assert (Cd : c_down c = snd p) by (rewrite Hc; reflexivity).
+  assert (Cf : c_flat c = (D - fst p - snd p)%Z) by (rewrite Hc; reflexivity).
+  assert (Hu' : (0 < c_up c)%Z) by lia. assert (Hd' : (0 < c_down c)%Z) by lia.
+  assert (Hf' : (0 <= c_flat c)%Z) by lia. assert (HD : (c_up c + c_flat c + c_down c = D)%Z) by lia.
+  apply make_ext_trap_arb_OK in HM. destruct HM as [M1 [MW [MT [_ [_ [MA [MD _]]]]]]].
+  pose proof (build_times_raster_pos a c Hu' M1) as HR.
+  change (s_raster (e_sys a)) with (rast a) in *.
+  (* number of samples *)
+  assert (K0 : rnd_he (hd 0 (build_times a c) / rast a) = 0%Z).
+  { rewrite hd_build_times, Qdiv_0_l. reflexivity. }
+  assert (K1 : rnd_he (last (build_times a c) 0 / rast a) = D).
+  { rewrite last_build_times, (flat_test a c HR Hf').
+    assert (E : (c_up c + (if (0 <? c_flat c)%Z then c_flat c else 0) + c_down c = D)%Z).
+    { destruct (0 <? c_flat c)%Z eqn:E; [lia|]. apply Z.ltb_ge in E. lia. }
+    rewrite E.
+    assert (E2 : inject_Z D * rast a / rast a == inject_Z D) by (field; lra).
+    rewrite E2. apply rnd_he_inject. }
+  assert (LW : length (a_wave g) = Z.to_nat D).
+  { rewrite MW. unfold eta_points_to_waveform. rewrite map_length, seq_length, K0, K1. f_equal. lia. }
+  assert (NW : forall i, (i < Z.to_nat D)%nat -> nth i (a_wave g) 0 == arb_sample_spec a c (Z.of_nat i)).
+  { intros i Hi. rewrite MW. unfold eta_points_to_waveform. rewrite K0, K1, Z.sub_0_r.
+    set (f := fun i0 : nat => eta_interp (build_times a c) (build_amps a c)
+                                (inject_Z (0 + Z.of_nat i0) * rast a + rast a / 2)).
+    rewrite (nth_indep _ 0 (f 0%nat)) by (rewrite map_length, seq_length; exact Hi).
+    rewrite map_nth, seq_nth by exact Hi. unfold f. cbn [plus].
+    apply interp_build; try assumption. lia. }
+  repeat split; try assumption; try lia.
+  - rewrite MT, map_length, seq_length. exact LW.
+  - intros i Hi. rewrite MT, LW.
+    set (f := fun i0 : nat => (inject_Z (Z.of_nat i0) + (1 # 2)) * rast a).
+    rewrite (nth_indep _ 0 (f 0%nat)) by (rewrite map_length, seq_length; exact Hi).
+    rewrite map_nth, seq_nth by exact Hi. reflexivity.
+  - rewrite MD, LW, Z2Nat.id by lia. reflexivity.
+  - rewrite MA. apply Qred_correct.
+Qed.
+
+(* ========================================================================================== *)
+(* exact area of the raster-sampled form                                                        *)
+
+(* ---- exact area of the sampled form: midpoint sums of a polyline with corners on the raster ---- *)
+Fixpoint sum_to (f : nat -> Q) (n : nat) : Q := match n with O => 0 | S k => sum_to f k + f k end.
+
+Lemma qsum_app l1 l2 : qsum (l1 ++ l2) == qsum l1 + qsum l2.
+Proof. induction l1 as [|x r IH]; cbn [qsum app]; [ring|rewrite IH; ring]. Qed.
+
+Lemma qsum_scaled_nth R l : forall f, (forall i, (i < length l)%nat -> nth i l 0 == f i) ->
+  qsum (map (fun w => w * R) l) == sum_to (fun i => f i * R) (length l).
+Proof.
+  induction l as [|x l IH] using rev_ind; intros f H; [reflexivity|].
+  rewrite map_app, qsum_app, app_length. cbn [length map qsum]. rewrite Nat.add_1_r. cbn [sum_to].
+  rewrite (IH f).
+  - assert (E : x == f (length l)).
+    { rewrite <- (H (length l)); [rewrite nth_middle; reflexivity|rewrite app_length; cbn; lia]. }
+    rewrite E. ring.
+  - intros i Hi. rewrite <- (H i); [rewrite app_nth1 by exact Hi; reflexivity|rewrite app_length; lia].
+Qed.
+
+(* primitive of the corner list at raster boundaries *)
+Definition prim (a : etaArgs) (c : cand) (k : Z) : Q :=
+  let R := rast a in let gs := e_gs a in let ge := e_ge a in let amp := c_amp c in
+  let u := inject_Z (c_up c) in let f := inject_Z (c_flat c) in let w := inject_Z (c_down c) in
+  let K := inject_Z k in
+  let P1 := gs * u * R + (amp - gs) / (u * R) * ((u * R) * (u * R)) * (1 # 2) in
+  if (k <=? c_up c)%Z then gs * K * R + (amp - gs) / (u * R) * ((K * R) * (K * R)) * (1 # 2)
+  else if (k <=? c_up c + c_flat c)%Z then P1 + amp * (K - u) * R
+  else P1 + amp * f * R + amp * (K - u - f) * R
+       + (ge - amp) / (w * R) * (((K - u - f) * R) * ((K - u - f) * R)) * (1 # 2).
+
+Lemma prim_step a c i : 0 < rast a -> (0 < c_up c)%Z -> (0 <= c_flat c)%Z -> (0 < c_down c)%Z ->
+  (0 <= i < c_up c + c_flat c + c_down c)%Z ->
+  prim a c (i + 1) - prim a c i == arb_sample_spec a c i * rast a.
+Proof.
+  intros HR Hu Hf Hd Hi. unfold prim, arb_sample_spec. cbv zeta.
+  rewrite inject_Z_plus. change (inject_Z 1) with 1.
+  pose proof (inject_Z_pos _ Hu) as Pu. pose proof (inject_Z_pos _ Hd) as Pd.
+  set (R := rast a) in *. set (u := inject_Z (c_up c)) in *. set (w := inject_Z (c_down c)) in *.
+  set (f := inject_Z (c_flat c)). set (K := inject_Z i).
+  destruct (i <? c_up c)%Z eqn:E1.
+  - apply Z.ltb_lt in E1.
+    replace (i + 1 <=? c_up c)%Z with true by (symmetry; apply Z.leb_le; lia).
+    replace (i <=? c_up c)%Z with true by (symmetry; apply Z.leb_le; lia).
+    field. lra.
+  - apply Z.ltb_ge in E1.
+    replace (i + 1 <=? c_up c)%Z with false by (symmetry; apply Z.leb_gt; lia).
+    destruct (i <? c_up c + c_flat c)%Z eqn:E2.
+    + apply Z.ltb_lt in E2.
+      replace (i + 1 <=? c_up c + c_flat c)%Z with true by (symmetry; apply Z.leb_le; lia).
+      destruct (i <=? c_up c)%Z eqn:E3.
+      * apply Z.leb_le in E3. assert (i = c_up c) by lia. subst i. fold u in K. subst K. field. lra.
+      * replace (i <=? c_up c + c_flat c)%Z with true by (symmetry; apply Z.leb_le; lia). field. lra.
+    + apply Z.ltb_ge in E2.
+      replace (i + 1 <=? c_up c + c_flat c)%Z with false by (symmetry; apply Z.leb_gt; lia).
+      rewrite inject_Z_plus. fold u f.
+      destruct (i <=? c_up c)%Z eqn:E3.
+      * apply Z.leb_le in E3. assert (i = c_up c) by lia. assert (F0 : c_flat c = 0%Z) by lia.
+        assert (Ef : f == 0) by (unfold f; rewrite F0; reflexivity).
+        subst i. fold u in K. subst K. rewrite Ef. field. lra.
+      * destruct (i <=? c_up c + c_flat c)%Z eqn:E4.
+        -- apply Z.leb_le in E4. assert (Ei : i = (c_up c + c_flat c)%Z) by lia.
+           assert (EK : K == u + f) by (unfold K, u, f; rewrite Ei, inject_Z_plus; reflexivity).
+           rewrite EK. field. lra.
+        -- field. lra.
+Qed.
+
+Lemma prim_telescope a c n : 0 < rast a -> (0 < c_up c)%Z -> (0 <= c_flat c)%Z -> (0 < c_down c)%Z ->
+  (Z.of_nat n <= c_up c + c_flat c + c_down c)%Z ->
+  sum_to (fun i => arb_sample_spec a c (Z.of_nat i) * rast a) n == prim a c (Z.of_nat n) - prim a c 0.
+Proof.
+  intros HR Hu Hf Hd. induction n as [|n IH]; intro Hn.
+  - cbn [sum_to]. change (Z.of_nat 0) with 0%Z. ring.
+  - cbn [sum_to]. rewrite IH by lia. rewrite <- (prim_step a c (Z.of_nat n)) by (try assumption; lia).
+    replace (Z.of_nat (S n)) with (Z.of_nat n + 1)%Z by lia. ring.
+Qed.
+
+Lemma prim_0 a c : (0 < c_up c)%Z -> prim a c 0 == 0.
+Proof.
+  intro Hu. unfold prim. cbv zeta. replace (0 <=? c_up c)%Z with true by (symmetry; apply Z.leb_le; lia).
+  change (inject_Z 0) with 0. unfold Qdiv. ring.
+Qed.
+
+Lemma prim_end a c : 0 < rast a -> (0 < c_up c)%Z -> (0 <= c_flat c)%Z -> (0 < c_down c)%Z ->
+  prim a c (c_up c + c_flat c + c_down c)
+  == (1 # 2) * poly_area2 (rast a) (e_gs a) (e_ge a) (c_amp c) (c_up c) (c_flat c) (c_down c).
+Proof.
+  intros HR Hu Hf Hd. unfold prim, poly_area2. cbv zeta.
+  replace (c_up c + c_flat c + c_down c <=? c_up c)%Z with false by (symmetry; apply Z.leb_gt; lia).
+  replace (c_up c + c_flat c + c_down c <=? c_up c + c_flat c)%Z with false by (symmetry; apply Z.leb_gt; lia).
+  rewrite !inject_Z_plus.
+  pose proof (inject_Z_pos _ Hu) as Pu. pose proof (inject_Z_pos _ Hd) as Pd.
+  field. lra.
+Qed.
+
+Lemma eta_arb_area_exact_lem fd fb a o : eta_arb fd fb a = OK o ->
+  qsum (map (fun w => w * rast a) (a_wave (oa_grad o))) == e_area a /\ a_area (oa_grad o) == e_area a.
+Proof.
+  intro H. pose proof (eta_arb_samples_lem _ _ _ _ H) as S. cbv zeta in S.
+  destruct S as [HR [Hfind [[Hu [Hf [Hd HD]]] [LW [_ [NW [_ [_ [HA _]]]]]]]]].
+  assert (Main : qsum (map (fun w => w * rast a) (a_wave (oa_grad o))) == e_area a);
+    [|split; [exact Main|rewrite HA; exact Main]].
+  set (c := oa_cand o) in *. set (D := oa_dur o) in *.
+  rewrite (qsum_scaled_nth (rast a) _ (fun i => arb_sample_spec a c (Z.of_nat i))).
+  - rewrite LW. rewrite prim_telescope by (try assumption; rewrite Z2Nat.id by lia; lia).
+    rewrite Z2Nat.id by lia. rewrite prim_0 by exact Hu. rewrite <- HD, prim_end by assumption.
+    pose proof (find_solution_Some _ _ _ Hfind) as [p [_ [Hc [_ [Hpu [Hpd Hsum]]]]]].
+    assert (Cu : c_up c = fst p) by (rewrite Hc; reflexivity).
+    assert (Cd : c_down c = snd p) by (rewrite Hc; reflexivity).
+    assert (Cf : c_flat c = (D - fst p - snd p)%Z) by (rewrite Hc; reflexivity).
+    pose proof (amp_area a D (fst p) (snd p) HR Hpu Hpd Hsum) as AA.
+    assert (Hamp : c_amp c == amp_of a D (fst p) (snd p)) by (rewrite Hc at 1; apply eval_cand_amp).
+    rewrite Cu, Cd, Cf. unfold poly_area2 in *. rewrite Hamp.
+    setoid_replace ((1 # 2) * (inject_Z (fst p) * rast a * (amp_of a D (fst p) (snd p) + e_gs a) +
+      inject_Z (D - fst p - snd p) * rast a * (amp_of a D (fst p) (snd p) + amp_of a D (fst p) (snd p)) +
+      inject_Z (snd p) * rast a * (e_ge a + amp_of a D (fst p) (snd p))) - 0) with
+      ((1 # 2) * (inject_Z (fst p) * rast a * (amp_of a D (fst p) (snd p) + e_gs a) +
+      inject_Z (D - fst p - snd p) * rast a * (amp_of a D (fst p) (snd p) + amp_of a D (fst p) (snd p)) +
+      inject_Z (snd p) * rast a * (e_ge a + amp_of a D (fst p) (snd p)))) by ring.
+    exact AA.
+  - intros i Hi. apply NW. rewrite <- LW. exact Hi.
+Qed.
+
+(* ========================================================================================== *)
+(* termination / total correctness                                                              *)
+
+(* ---- termination: every sufficiently long duration has a (two-ramp) solution ---- *)
+Lemma eta_amp_tol_pos : 0 < eta_amp_tol. Proof. reflexivity. Qed.
+
+(* a duration from which the symmetric split d/2 + (d - d/2) is accepted by the filter *)
+Definition d_feasible (a : etaArgs) : Z :=
+  Z.max 2 (Z.max (Qceiling (2 * Qabs (e_area a) / (rast a * eta_amp_tol)))
+                 (Qceiling (2 * (2 * mgrad a + eta_amp_tol) / (mslew a * rast a)) + 2)).
+
+Lemma Qabs_bounds x H : Qabs x <= H -> - H <= x /\ x <= H.
+Proof. intro A. apply Qabs_Qle_condition in A. exact A. Qed.
+
+Lemma eventually_feasible a d : 0 < rast a -> 0 < mslew a ->
+  Qabs (e_gs a) <= mgrad a -> Qabs (e_ge a) <= mgrad a ->
+  (d_feasible a <= d)%Z -> find_solution a d <> None.
+Proof.
+  intros HR HS Hgs Hge Hd HN.
+  unfold d_feasible in Hd.
+  set (ru := (d / 2)%Z). set (rd := (d - ru)%Z).
+  assert (Hd2 : (2 <= d)%Z) by lia.
+  assert (Hru : (1 <= ru /\ 2 * ru <= d /\ d - 1 <= 2 * ru)%Z).
+  { unfold ru. pose proof (Z_div_mod_eq_full d 2). pose proof (Z.mod_pos_bound d 2 ltac:(lia)). lia. }
+  assert (Hrd : (1 <= rd /\ d - 1 <= 2 * rd)%Z) by (unfold rd; lia).
+  assert (Hin : In (ru, rd) (cands a d)).
+  { unfold cands. rewrite !in_app_iff. right; right. apply cand_two_ramp_spec. cbn [fst snd]. unfold rd. lia. }
+  pose proof (find_solution_None _ _ HN _ Hin) as Hv.
+  assert (Hv' : valid a (eval_cand a d (ru, rd)) = true); [|congruence].
+  apply valid_within; [exact HR|cbn; lia|cbn; lia|]. cbn [fst snd].
+  apply (within_compat a _ _ _ ru rd (amp_of a d ru rd)); [symmetry; apply (eval_cand_amp a d (ru, rd))|].
+  (* the arithmetic *)
+  set (G := mgrad a) in *. set (R := rast a) in *. set (ms := mslew a) in *.
+  set (u := inject_Z ru). set (w := inject_Z rd). set (D := inject_Z d).
+  assert (Pu : 1 <= u) by (unfold u; change 1 with (inject_Z 1); rewrite <- Zle_Qle; lia).
+  assert (Pw : 1 <= w) by (unfold w; change 1 with (inject_Z 1); rewrite <- Zle_Qle; lia).
+  assert (ED : D == u + w) by (unfold D, u, w; rewrite <- inject_Z_plus; unfold rd; apply inject_Z_injective; lia).
+  assert (Hu2 : D - 1 <= 2 * u).
+  { assert (H : inject_Z (d + - (1)) <= inject_Z (2 * ru)) by (rewrite <- Zle_Qle; lia).
+    rewrite inject_Z_mult, inject_Z_plus, inject_Z_opp in H. fold D u in H.
+    change (inject_Z 2) with 2 in H. change (inject_Z 1) with 1 in H. lra. }
+  assert (Hw2 : D - 1 <= 2 * w).
+  { assert (H : inject_Z (d + - (1)) <= inject_Z (2 * rd)) by (rewrite <- Zle_Qle; lia).
+    rewrite inject_Z_mult, inject_Z_plus, inject_Z_opp in H. fold D w in H.
+    change (inject_Z 2) with 2 in H. change (inject_Z 1) with 1 in H. lra. }
+  assert (G0 : 0 <= G) by (pose proof (Qabs_nonneg (e_gs a)); lra).
+  pose proof eta_amp_tol_pos as Tp. pose proof eta_slew1_tol_nonneg as T1. pose proof eta_slew2_tol_nonneg as T2.
+  (* from the two ceilings *)
+  assert (HA : 2 * Qabs (e_area a) <= D * (R * eta_amp_tol)).
+  { assert (C : 2 * Qabs (e_area a) / (R * eta_amp_tol) <= D).
+    { eapply Qle_trans; [apply Qle_ceiling|]. unfold D. rewrite <- Zle_Qle. lia. }
+    apply Qle_div_l in C; [exact C|apply Qmult_lt_0_compat; assumption]. }
+  assert (HSl : 2 * (2 * G + eta_amp_tol) <= (D - 2) * (ms * R)).
+  { assert (C : 2 * (2 * G + eta_amp_tol) / (ms * R) <= D - 2).
+    { eapply Qle_trans; [apply Qle_ceiling|].
+      assert (H : inject_Z (Qceiling (2 * (2 * G + eta_amp_tol) / (ms * R))) <= inject_Z (d + - (2)))
+        by (rewrite <- Zle_Qle; lia).
+      rewrite inject_Z_plus, inject_Z_opp in H. fold D in H. change (inject_Z 2) with 2 in H. lra. }
+    apply Qle_div_l in C; [exact C|apply Qmult_lt_0_compat; assumption]. }
+  (* the amplitude *)
+  set (ga := amp_of a d ru rd).
+  assert (DR : 0 < D * R) by (apply Qmult_lt_0_compat; [rewrite ED; lra|exact HR]).
+  assert (EX : ga * (D * R) == 2 * e_area a - u * R * e_gs a - w * R * e_ge a).
+  { unfold ga, amp_of. replace (ru + 2 * (d - ru - rd) + rd)%Z with d by (unfold rd; lia).
+    fold D R u w. field. lra. }
+  apply Qabs_bounds in Hgs. apply Qabs_bounds in Hge. destruct Hgs as [S1 S2]. destruct Hge as [E1 E2].
+  assert (UR : 0 <= u * R) by (apply Qmult_le_0_compat; lra).
+  assert (WR : 0 <= w * R) by (apply Qmult_le_0_compat; lra).
+  pose proof (scale_bound _ (e_gs a) G UR S1 S2) as [B1 B1'].
+  pose proof (scale_bound _ (e_ge a) G WR E1 E2) as [B2 B2'].
+  pose proof (Qle_Qabs (e_area a)) as A1.
+  assert (A2 : - e_area a <= Qabs (e_area a)) by (rewrite <- Qabs_opp; apply Qle_Qabs).
+  assert (Hga : - (G + eta_amp_tol) <= ga /\ ga <= G + eta_amp_tol).
+  { split.
+    - apply (Qmult_le_r _ _ (D * R) DR). rewrite EX. rewrite ED in *. lra.
+    - apply (Qmult_le_r _ _ (D * R) DR). rewrite EX. rewrite ED in *. lra. }
+  destruct Hga as [Ga1 Ga2].
+  unfold within. fold R u w. repeat split.
+  - apply Qabs_Qle_condition. split; lra.
+  - apply Qabs_Qle_condition.
+    assert (Cap : 2 * G + eta_amp_tol <= (ms + eta_slew1_tol) * (u * R)).
+    { assert (ms * R * (D - 2) <= 2 * (ms * (u * R))).
+      { setoid_replace (2 * (ms * (u * R))) with (ms * R * (2 * u)) by ring.
+        apply Qmult_le_l; [apply Qmult_lt_0_compat; assumption|lra]. }
+      assert (0 <= eta_slew1_tol * (u * R)) by (apply Qmult_le_0_compat; assumption).
+      setoid_replace ((ms + eta_slew1_tol) * (u * R)) with (ms * (u * R) + eta_slew1_tol * (u * R)) by ring.
+      lra. }
+    split; lra.
+  - apply Qabs_Qle_condition.
+    assert (Cap : 2 * G + eta_amp_tol <= (ms + eta_slew2_tol) * (w * R)).
+    { assert (ms * R * (D - 2) <= 2 * (ms * (w * R))).
+      { setoid_replace (2 * (ms * (w * R))) with (ms * R * (2 * w)) by ring.
+        apply Qmult_le_l; [apply Qmult_lt_0_compat; assumption|lra]. }
+      assert (0 <= eta_slew2_tol * (w * R)) by (apply Qmult_le_0_compat; assumption).
+      setoid_replace ((ms + eta_slew2_tol) * (w * R)) with (ms * (w * R) + eta_slew2_tol * (w * R)) by ring.
+      lra. }
+    split; lra.
+Qed.
+
+(* in-domain inputs of the termination theorems *)
+Definition in_domain (a : etaArgs) : Prop :=
+  0 < rast a /\ 0 < mslew a /\ Qabs (e_gs a) <= mgrad a /\ Qabs (e_ge a) <= mgrad a.
+
+Lemma eventually_feasible' a d : in_domain a -> (d_feasible a <= d)%Z -> find_solution a d <> None.
+Proof. intros [H1 [H2 [H3 H4]]]. apply eventually_feasible; assumption. Qed.
+
+Lemma doubling_total a k : in_domain a -> forall md, (0 < md)%Z ->
+  (d_feasible a <= md * 2 ^ Z.of_nat (S k))%Z -> doubling a md (S k) <> None.
+Proof.
+  intro Dom. induction k as [|k IH]; intros md Hmd Hb.
+  - cbn [doubling]. change (2 ^ Z.of_nat 1)%Z with 2%Z in Hb.
+    destruct (find_solution a (md * 2)) eqn:E; [discriminate|].
+    exfalso. apply (eventually_feasible' a (md * 2) Dom Hb). exact E.
+  - cbn [doubling]. destruct (find_solution a (md * 2)) eqn:E; [discriminate|].
+    apply IH; [lia|].
+    replace (md * 2 * 2 ^ Z.of_nat (S k))%Z with (md * 2 ^ Z.of_nat (S (S k)))%Z; [exact Hb|].
+    rewrite (Nat2Z.inj_succ (S k)), Z.pow_succ_r by lia. ring.
+Qed.
+
+Lemma doubling_le a fuel : forall md hi, doubling a md fuel = Some hi -> (0 < md)%Z ->
+  (hi <= md * 2 ^ Z.of_nat fuel)%Z.
+Proof.
+  induction fuel as [|k IH]; intros md hi H Hmd; cbn [doubling] in H; [discriminate|].
+  rewrite Nat2Z.inj_succ, Z.pow_succ_r by lia.
+  destruct (find_solution a (md * 2)) eqn:E.
+  - inversion H; subst. assert (0 < 2 ^ Z.of_nat k)%Z by (apply Z.pow_pos_nonneg; lia). nia.
+  - apply IH in H; [|lia]. lia.
+Qed.
+
+Lemma bsearch_S a lo hi k : bsearch a lo hi (S k) =
+  if (lo =? hi - 1)%Z then match find_solution a hi with Some c => OK (hi, c) | None => Err NoneSolution end
+  else match find_solution a ((hi + lo) / 2) with
+       | Some _ => bsearch a lo ((hi + lo) / 2) k
+       | None => bsearch a ((hi + lo) / 2) hi k
+       end.
+Proof. reflexivity. Qed.
+
+Lemma bsearch_total a k : forall lo hi, (lo < hi)%Z -> (hi - lo <= 2 ^ Z.of_nat k)%Z ->
+  find_solution a hi <> None -> exists dc, bsearch a lo hi (S k) = OK dc.
+Proof.
+  induction k as [|k IH]; intros lo hi Hlt Hsz Hhi.
+  - change (2 ^ Z.of_nat 0)%Z with 1%Z in Hsz. cbn [bsearch].
+    replace (lo =? hi - 1)%Z with true by (symmetry; apply Z.eqb_eq; lia).
+    destruct (find_solution a hi) as [c|]; [eexists; reflexivity|congruence].
+  - rewrite bsearch_S. destruct (lo =? hi - 1)%Z eqn:E.
+    + destruct (find_solution a hi) as [c|]; [eexists; reflexivity|congruence].
+    + apply Z.eqb_neq in E.
+      rewrite Nat2Z.inj_succ, Z.pow_succ_r in Hsz by lia.
+      pose proof (Z_div_mod_eq_full (hi + lo) 2) as Hdm.
+      pose proof (Z.mod_pos_bound (hi + lo) 2 ltac:(lia)) as Hmb.
+      destruct (find_solution a ((hi + lo) / 2)) eqn:F.
+      * apply IH; [lia|lia|congruence].
+      * apply IH; [lia|lia|exact Hhi].
+Qed.
+
+(* the search never runs out of fuel and never ends with NoneSolution when the fuel covers the feasibility bound *)
+Lemma search_total a kd kb : in_domain a ->
+  (d_feasible a <= lin_max a * 2 ^ Z.of_nat (S kd))%Z ->
+  (lin_max a * 2 ^ Z.of_nat (S kd) <= 2 ^ Z.of_nat kb)%Z ->
+  exists dc, search (S kd) (S kb) a = OK dc.
+Proof.
+  intros Dom Hd Hb. unfold search.
+  pose proof (min_le_lin_max a) as Hmm. pose proof (min_duration_ge2 a) as Hm2.
+  destruct (linear_search a (min_duration a) (Z.to_nat (lin_max a - min_duration a + 1))) as [dc|] eqn:L;
+    [eexists; reflexivity|].
+  pose proof (linear_search_None _ _ _ L) as LN. rewrite Z2Nat.id in LN by lia.
+  assert (Hlm : find_solution a (lin_max a) = None) by (apply LN; lia).
+  destruct (doubling a (lin_max a) (S kd)) as [hi|] eqn:Dd;
+    [|exfalso; exact (doubling_total a kd Dom (lin_max a) ltac:(lia) Hd Dd)].
+  pose proof (doubling_le _ _ _ _ Dd ltac:(lia)) as Hle.
+  apply doubling_Some in Dd; [|lia|exact Hlm]. destruct Dd as [[D1 D2] [D3 D4]].
+  destruct (bsearch_total a kb (hi / 2) hi D2 ltac:(lia) D3) as [dc Hdc].
+  rewrite Hdc. eexists; reflexivity.
+Qed.
+
+(* ---- the final construction never fails on an accepted candidate ---- *)
+Definition sys_ok (a : etaArgs) : Prop :=
+  mslew a + eta_slew1_tol <= s_max_slew (e_sys a) * (1 + eta_eps) /\
+  mslew a + eta_slew2_tol <= s_max_slew (e_sys a) * (1 + eta_eps) /\
+  mgrad a + eta_amp_tol <= s_max_grad (e_sys a) + eta_eps.
+
+Lemma Qltb_ge x y : y <= x -> Qltb x y = false.
+Proof. intro H. unfold Qltb. apply negb_false_iff. apply Qle_bool_iff. exact H. Qed.
+
+Lemma on_raster_mult R k t : 0 < R -> t == inject_Z k * R -> on_raster R t = true.
+Proof.
+  intros HR E. unfold on_raster. apply Qleb_le.
+  assert (E2 : t / R == inject_Z k) by (rewrite E; field; lra).
+  rewrite E2, rnd_he_inject.
+  assert (Z0 : inject_Z k * R - t == 0) by (rewrite E; ring).
+  rewrite Z0. discriminate.
+Qed.
+
+Lemma slope_ok w0 w1 T T' L B : 0 < T -> T' == T -> Qabs (w0 - w1) <= L * T -> L <= B ->
+  Qabs ((w1 - w0) / T') <= B.
+Proof.
+  intros HT ET H HL. rewrite ET.
+  assert (E : Qabs ((w1 - w0) / T) == Qabs (w0 - w1) / T).
+  { setoid_replace ((w1 - w0) / T) with (- ((w0 - w1) / T)) by (field; lra).
+    rewrite Qabs_opp. unfold Qdiv. rewrite Qabs_Qmult. rewrite (Qabs_pos (/ T)); [reflexivity|].
+    apply Qlt_le_weak. apply Qinv_lt_0_compat. exact HT. }
+  rewrite E. eapply Qle_trans; [|exact HL]. apply Qle_shift_div_r; assumption.
+Qed.
+
+Lemma finish_total a d c : find_solution a d = Some c -> in_domain a -> sys_ok a ->
+  exists o, finish a d c = OK o.
+Proof.
+  intros Hf [HR [HS [Hgs Hge]]] [K1 [K2 K3]].
+  pose proof (find_solution_Some _ _ _ Hf) as [p [_ [Hc [Hv [Hu [Hd Hsum]]]]]].
+  assert (Cu : c_up c = fst p) by (rewrite Hc; reflexivity).
+  assert (Cd : c_down c = snd p) by (rewrite Hc; reflexivity).
+  assert (Cf : c_flat c = (d - fst p - snd p)%Z) by (rewrite Hc; reflexivity).
+  assert (Hu' : (0 < c_up c)%Z) by lia. assert (Hd' : (0 < c_down c)%Z) by lia.
+  assert (Hf' : (0 <= c_flat c)%Z) by lia.
+  pose proof Hv as Hw. rewrite Hc in Hw. apply valid_within in Hw; [|exact HR|exact Hu|exact Hd].
+  rewrite <- Hc, <- Cu, <- Cd in Hw. destruct Hw as [W1 [W2 W3]].
+  assert (Hamp : c_amp c == amp_of a d (c_up c) (c_down c)).
+  { rewrite Cu, Cd. rewrite Hc at 1. apply eval_cand_amp. }
+  pose proof (amp_area a d (c_up c) (c_down c) HR Hu' Hd' ltac:(lia)) as AA.
+  replace (d - c_up c - c_down c)%Z with (c_flat c) in AA by lia.
+  unfold poly_area2 in AA. rewrite <- Hamp in AA.
+  set (R := rast a) in *. set (amp := c_amp c) in *.
+  set (u := inject_Z (c_up c)) in *. set (f := inject_Z (c_flat c)) in *. set (w := inject_Z (c_down c)) in *.
+  pose proof (inject_Z_pos _ Hu') as Pu. pose proof (inject_Z_pos _ Hd') as Pd.
+  pose proof (inject_Z_nonneg _ Hf') as Pf. fold u in Pu. fold w in Pd. fold f in Pf.
+  assert (TU : 0 < u * R) by (apply Qmult_lt_0_compat; assumption).
+  assert (TD : 0 < w * R) by (apply Qmult_lt_0_compat; assumption).
+  pose proof eta_area_tol_pos as TA. pose proof eta_amp_tol_nonneg as Tt.
+  assert (Ggs : Qabs (e_gs a) <= s_max_grad (e_sys a) + eta_eps) by lra.
+  assert (Gge : Qabs (e_ge a) <= s_max_grad (e_sys a) + eta_eps) by lra.
+  assert (Gam : Qabs amp <= s_max_grad (e_sys a) + eta_eps) by lra.
+  unfold finish, make_ext_trap, build_times, build_amps.
+  change (s_raster (e_sys a)) with R. fold u f w. fold R. fold amp.
+  pose proof (flat_test a c HR Hf') as FT. fold R f in FT. rewrite FT. clear FT.
+  destruct (0 <? c_flat c)%Z eqn:EF.
+  - (* four corners *)
+    apply Z.ltb_lt in EF. pose proof (inject_Z_pos _ EF) as Pf'. fold f in Pf'.
+    assert (TF : 0 < f * R) by (apply Qmult_lt_0_compat; assumption).
+    cbn [forallb diffs existsb last hd map slews trap_area].
+    replace (Qeq_bool (0 + u * R) 0) with false
+      by (symmetry; apply not_true_is_false; intro H; apply Qeq_bool_iff in H; lra).
+    rewrite andb_false_r. cbn [andb].
+    replace (Qleb (0 + u * R - 0) 0) with false
+      by (symmetry; apply not_true_is_false; intro H; apply Qleb_le in H; lra).
+    replace (Qleb (0 + u * R + f * R - (0 + u * R)) 0) with false
+      by (symmetry; apply not_true_is_false; intro H; apply Qleb_le in H; lra).
+    replace (Qleb (0 + u * R + f * R + w * R - (0 + u * R + f * R)) 0) with false
+      by (symmetry; apply not_true_is_false; intro H; apply Qleb_le in H; lra).
+    cbn [orb].
+    rewrite (on_raster_mult R (c_up c + c_flat c + c_down c) _ HR)
+      by (rewrite !inject_Z_plus; fold u f w; ring).
+    cbn [negb].
+    replace (Qltb 0 0) with false by reflexivity. cbn [andb].
+    rewrite (on_raster_mult R 0 0 HR) by (change (inject_Z 0) with 0; ring).
+    rewrite (on_raster_mult R (c_up c) (0 + u * R) HR) by (fold u; ring).
+    rewrite (on_raster_mult R (c_up c + c_flat c) (0 + u * R + f * R) HR)
+      by (rewrite inject_Z_plus; fold u f; ring).
+    cbn [andb negb].
+    set (dl := inject_Z (rnd_he (0 / R)) * R).
+    assert (Edl : dl == 0) by apply delay_zero.
+    (* slews *)
+    rewrite (Qltb_ge _ (Qabs ((amp - e_gs a) / (Qred (0 + u * R - dl) - Qred (0 - dl)))))
+      by (apply (slope_ok _ _ (u * R) _ (mslew a + eta_slew1_tol)); [exact TU|rewrite !Qred_correct, Edl; ring|exact W2|exact K1]).
+    rewrite (Qltb_ge _ (Qabs ((amp - amp) / (Qred (0 + u * R + f * R - dl) - Qred (0 + u * R - dl)))))
+      by (apply (slope_ok _ _ (f * R) _ 0); [exact TF|rewrite !Qred_correct, Edl; ring
+          |setoid_replace (amp - amp) with 0 by ring; rewrite Qmult_0_l; discriminate
+          |pose proof (Qabs_nonneg (e_gs a)); pose proof eta_slew1_tol_nonneg; lra]).
+    rewrite (Qltb_ge _ (Qabs ((e_ge a - amp) / (Qred (0 + u * R + f * R + w * R - dl) - Qred (0 + u * R + f * R - dl)))))
+      by (apply (slope_ok _ _ (w * R) _ (mslew a + eta_slew2_tol)); [exact TD|rewrite !Qred_correct, Edl; ring
+          |rewrite <- Qabs_opp; setoid_replace (- (amp - e_ge a)) with (e_ge a - amp) by ring; exact W3|exact K2]).
+    cbn [orb].
+    rewrite (Qltb_ge _ (Qabs (e_gs a)) Ggs), (Qltb_ge _ (Qabs amp) Gam), (Qltb_ge _ (Qabs (e_ge a)) Gge).
+    cbn [orb g_area].
+    match goal with |- exists o, (if Qltb ?x ?y then _ else _) = _ => assert (HX : Qltb x y = true) end.
+    { apply Qltb_lt. rewrite !Qred_correct, Edl.
+      match goal with |- Qabs ?z < _ => assert (Z0 : z == 0) by (rewrite <- AA; ring) end.
+      rewrite Z0. exact TA. }
+    rewrite HX. eexists; reflexivity.
+  - (* three corners *)
+    apply Z.ltb_ge in EF. assert (F0 : c_flat c = 0%Z) by lia.
+    assert (Ef : f == 0) by (unfold f; rewrite F0; reflexivity).
+    cbn [forallb diffs existsb last hd map slews trap_area].
+    replace (Qeq_bool (0 + u * R) 0) with false
+      by (symmetry; apply not_true_is_false; intro H; apply Qeq_bool_iff in H; lra).
+    rewrite andb_false_r. cbn [andb].
+    replace (Qleb (0 + u * R - 0) 0) with false
+      by (symmetry; apply not_true_is_false; intro H; apply Qleb_le in H; lra).
+    replace (Qleb (0 + u * R + w * R - (0 + u * R)) 0) with false
+      by (symmetry; apply not_true_is_false; intro H; apply Qleb_le in H; lra).
+    cbn [orb].
+    rewrite (on_raster_mult R (c_up c + c_down c) _ HR) by (rewrite !inject_Z_plus; fold u w; ring).
+    cbn [negb].
+    replace (Qltb 0 0) with false by reflexivity. cbn [andb].
+    rewrite (on_raster_mult R 0 0 HR) by (change (inject_Z 0) with 0; ring).
+    rewrite (on_raster_mult R (c_up c) (0 + u * R) HR) by (fold u; ring).
+    cbn [andb negb].
+    set (dl := inject_Z (rnd_he (0 / R)) * R).
+    assert (Edl : dl == 0) by apply delay_zero.
+    rewrite (Qltb_ge _ (Qabs ((amp - e_gs a) / (Qred (0 + u * R - dl) - Qred (0 - dl)))))
+      by (apply (slope_ok _ _ (u * R) _ (mslew a + eta_slew1_tol)); [exact TU|rewrite !Qred_correct, Edl; ring|exact W2|exact K1]).
+    rewrite (Qltb_ge _ (Qabs ((e_ge a - amp) / (Qred (0 + u * R + w * R - dl) - Qred (0 + u * R - dl)))))
+      by (apply (slope_ok _ _ (w * R) _ (mslew a + eta_slew2_tol)); [exact TD|rewrite !Qred_correct, Edl; ring
+          |rewrite <- Qabs_opp; setoid_replace (- (amp - e_ge a)) with (e_ge a - amp) by ring; exact W3|exact K2]).
+    cbn [orb].
+    rewrite (Qltb_ge _ (Qabs (e_gs a)) Ggs), (Qltb_ge _ (Qabs amp) Gam), (Qltb_ge _ (Qabs (e_ge a)) Gge).
+    cbn [orb g_area].
+    match goal with |- exists o, (if Qltb ?x ?y then _ else _) = _ => assert (HX : Qltb x y = true) end.
+    { apply Qltb_lt. rewrite !Qred_correct, Edl.
+      match goal with |- Qabs ?z < _ => assert (Z0 : z == 0) by (rewrite <- AA, Ef; ring) end.
+      rewrite Z0. exact TA. }
+    rewrite HX. eexists; reflexivity.
+Qed.
+
+(* TOTAL CORRECTNESS: for in-domain inputs and enough fuel the model returns a gradient *)
+Lemma eta_total_lem a kd kb : in_domain a -> sys_ok a ->
+  (d_feasible a <= lin_max a * 2 ^ Z.of_nat (S kd))%Z ->
+  (lin_max a * 2 ^ Z.of_nat (S kd) <= 2 ^ Z.of_nat kb)%Z ->
+  exists o, eta (S kd) (S kb) a = OK o.
+Proof.
+  intros Dom Sys Hd Hb. destruct (search_total a kd kb Dom Hd Hb) as [[d c] HS].
+  unfold eta. rewrite HS. apply search_OK in HS. destruct HS as [Hf _].
+  exact (finish_total a d c Hf Dom Sys).
+Qed.
